@@ -118,6 +118,8 @@ impl CompactionWorker {
                     "All batches complete, scheduling deletion of drained segments"
                 );
             }
+            #[cfg(sneldb_verif)]
+            crate::verif::point("compact.before_reclaim");
             self.handover.schedule_reclaim(all_drained_segments);
         } else {
             if tracing::enabled!(tracing::Level::DEBUG) {
@@ -173,6 +175,8 @@ impl CompactionWorker {
         // When multiple UIDs are compacted from the same input segments,
         // they should all go into ONE output segment (not separate segments per UID)
         // Use the first output segment ID for all UIDs in the batch
+        #[cfg(sneldb_verif)]
+        crate::verif::point("compact.output_written");
         let shared_output_segment_id = batch.uid_plans[0].output_segment_id;
         let all_uids: Vec<String> = batch.uid_plans.iter().map(|p| p.uid.clone()).collect();
 
